@@ -140,6 +140,9 @@ def record_shard(binpath, driver, seed, tier, shard, nshards, outfile, timeout, 
     if only is not None:
         cmd += ["--only", str(only)]
     status = {"rc": None, "timeout": False, "probes": {}, "cases": 0, "events": 0}
+    inflight = outfile + ".inflight"
+    env = dict(env or {})
+    env["HARNESS_INFLIGHT"] = inflight
     try:
         rc, out = run(cmd, timeout=timeout, env=env)
         status["rc"] = rc
@@ -164,8 +167,12 @@ def record_shard(binpath, driver, seed, tier, shard, nshards, outfile, timeout, 
         return status
     if status["rc"] != 0 or status["timeout"]:
         # every Call has a Return: a crash or hang is made visible to the trace specification
+        try:
+            during = re.sub(r"[^A-Za-z0-9_]", "", open(inflight).read())[:40]
+        except OSError:
+            during = ""
         with open(outfile, "a") as f:
-            f.write(json.dumps({"op": "crashed", "form": "timeout" if status["timeout"] else "rc=%s" % status["rc"],
+            f.write(json.dumps({"op": "crashed", "form": ("timeout" if status["timeout"] else "rc=%s" % status["rc"]) + (" in " + during if during else ""),
                                 "src": [], "dst": [], "out": "crash", "same": True, "post": [], "ret": {}}) + "\n")
     return status
 
@@ -334,6 +341,9 @@ def check_property(pid, tier, seed):
                 for (ln, op, form, reason) in res["bads"]:
                     ev = events[ln - 1]
                     owners = owners_of(op, reason)
+                    if reason == "crash" and " in " in form:
+                        # the call that never returned: "every x has a root / a quotient / ..." fails for the operation in flight too
+                        owners |= set(OP_OWNERS.get(form.split(" in ", 1)[1], ()))
                     if "*" in spec.get("owns_reasons", ()) or reason in spec.get("owns_reasons", ()):
                         owners.add(pid)
                     start, end = case_slice(events, ln)
